@@ -15,6 +15,11 @@ use serde_json::Value;
 use std::cell::RefCell;
 use std::collections::HashSet;
 
+/// zones for the local-time path of the client: POSIX rules with daylight saving (no tzdata needed) and named zones
+const C01_ZONES: [&str; 4] = ["EST5EDT,M3.2.0,M11.1.0", "CET-1CEST,M3.5.0,M10.5.0/3", "Europe/Berlin", "XXX3"];
+/// instants (seconds) at which those zones repeat an hour (clocks go back): 2025-11-02T06:00Z (US), 2025-10-26T01:00Z (EU)
+const DST_FOLDS: [u64; 2] = [1_762_063_200, 1_761_440_400];
+
 /// tags that do not belong at the top level of a response (they are signed inside SREP / DELE)
 const EXTRA_TAGS: [u32; 8] = [rc::MIDP, rc::RADI, rc::ROOT, rc::PUBK, rc::MINT, rc::MAXT, rc::VER, rc::DELE];
 
@@ -84,6 +89,10 @@ pub enum Forgery {
     ResignedGenuine(Comp, Edit),
     /// SREP.ROOT cut to this many bytes and re-signed by the genuine online key
     RootLen(u8),
+    /// everything an honest server of the OTHER protocol would sign for this request — SREP laid out like the other
+    /// protocol and re-signed by the genuine online key, certificate signed by the genuine long-term key under the OTHER
+    /// delegation context — around a Merkle proof that is correct for THIS protocol
+    OtherProtocolSignatures,
     /// an extra, unsigned top-level field (index into EXTRA_TAGS) with a generated value is added to a genuine response
     ExtraTopLevelTag(u8, Hex),
     Truncate(u16),
@@ -106,6 +115,9 @@ pub struct Plan {
     /// which of the nreq requests receives the forgery (others receive honest responses)
     pub target: u8,
     pub forgery: Forgery,
+    /// 0 = UTC output (-z); 1.. = local-time output (no -z) under one of C01_ZONES
+    #[serde(default)]
+    pub zone: u8,
 }
 
 fn proto(ietf: bool) -> Proto {
@@ -351,6 +363,20 @@ fn forge(plan: &Plan, i: usize, requests: &[Vec<u8>]) -> Vec<u8> {
             parts.resign_srep(&good.online);
             parts.assemble()
         }
+        Forgery::OtherProtocolSignatures => {
+            if pr == Proto::Classic {
+                parts.srep.set(rc::VER, VER_DRAFT13.to_le_bytes().to_vec());
+                let mut v = VER_CLASSIC.to_le_bytes().to_vec();
+                v.extend_from_slice(&VER_DRAFT13.to_le_bytes());
+                parts.srep.set(rc::VERS, v);
+            } else {
+                parts.srep.remove(rc::VER);
+                parts.srep.remove(rc::VERS);
+            }
+            parts.resign_srep(&good.online);
+            parts.resign_dele(&good.long_term, pr.other().dele_ctx());
+            parts.assemble()
+        }
         Forgery::ExtraTopLevelTag(t, v) => {
             let tag = EXTRA_TAGS[*t as usize % EXTRA_TAGS.len()];
             let mut val = v.0.clone();
@@ -430,6 +456,7 @@ fn forgery_kind(f: &Forgery) -> String {
         Forgery::ReplayPrevious(_) => "replay-previous-run".into(),
         Forgery::ResignedGenuine(c, _) => format!("resigned-by-genuine-online-key:{:?}", c),
         Forgery::RootLen(n) => format!("root-cut-to-{}-bytes-resigned", *n & !3),
+        Forgery::OtherProtocolSignatures => "other-protocol-signatures-on-correct-proof".into(),
         Forgery::ExtraTopLevelTag(t, _) => format!("extra-top-level-{}", rc::tag_name(EXTRA_TAGS[*t as usize % EXTRA_TAGS.len()])),
         Forgery::Truncate(_) => "truncate".into(),
         Forgery::Extend(_) => "extend".into(),
@@ -444,7 +471,8 @@ fn check_forgery(ctx: &mut Ctx, plan: &Plan) -> Res {
     ctx.eval();
     let pr = proto(plan.ietf);
     let pk = RefKey::from_seed(&LT_SEED).public();
-    let args = ClientArgs { ietf: plan.ietf, key: Some(key_string(&pk, plan.key_b64)), nreq: plan.nreq.clamp(1, 64), mode: plan.mode % 3, local_tz: None };
+    let zone = plan.zone as usize % (C01_ZONES.len() + 1);
+    let args = ClientArgs { ietf: plan.ietf, key: Some(key_string(&pk, plan.key_b64)), nreq: plan.nreq.clamp(1, 64), mode: plan.mode % 3, local_tz: if zone == 0 { None } else { Some(C01_ZONES[zone - 1].to_string()) } };
     let delivered: RefCell<Vec<Vec<u8>>> = RefCell::new(vec![]);
     let run = match run_client(&args, |reqs| {
         let out: Vec<Vec<u8>> = (0..reqs.len()).map(|i| forge(plan, i, reqs)).collect();
@@ -596,6 +624,7 @@ fn forgery_strategy() -> impl Strategy<Value = Forgery> {
         3 => (0u8..8, bytes(0usize..=8)).prop_map(|(t, v)| Forgery::ExtraTopLevelTag(t, v)),
         2 => (prop::sample::select(vec![Comp::Root, Comp::Midp, Comp::Radi, Comp::SrepVer]), edit_strategy()).prop_map(|(c, e)| Forgery::ResignedGenuine(c, e)),
         1 => (0u8..=68).prop_map(Forgery::RootLen),
+        1 => Just(Forgery::OtherProtocolSignatures),
         2 => any::<u16>().prop_map(Forgery::Truncate),
         1 => bytes(1usize..=16).prop_map(Forgery::Extend),
         3 => proptest::collection::vec((any::<u16>(), any::<u8>()), 1..=8).prop_map(Forgery::ByteMuts),
@@ -620,7 +649,17 @@ fn batch_strategy() -> impl Strategy<Value = (u8, u8)> {
 
 fn plan_strategy() -> impl Strategy<Value = Plan> {
     (any::<bool>(), any::<bool>(), prop_oneof![5 => Just(1u8), 3 => 2u8..=4, 2 => 5u8..=16, 1 => 17u8..=64], 0u8..3, batch_strategy(), forgery_strategy(), any::<u8>()).prop_flat_map(|(ietf, key_b64, nreq, mode, (batch, index), forgery, target)| {
-        midp_strategy(ietf).prop_map(move |midp| Plan { ietf, key_b64, nreq, mode, batch, index, midp, target: target % nreq, forgery: forgery.clone() })
+        (midp_strategy(ietf), prop_oneof![3 => Just(0u8), 1 => 1u8..=4], prop_oneof![4 => Just(None), 1 => (0usize..2, -3i64..=3).prop_map(Some)]).prop_map(move |(midp, zone, fold)| {
+            // a fifth of the local-time plans sit on an instant at which the zone repeats an hour
+            let (midp, zone) = match fold {
+                Some((k, d)) => {
+                    let s = (DST_FOLDS[k] as i64 + d) as u64;
+                    (if ietf { s } else { s * 1_000_000 }, if zone == 0 { 1 + k as u8 } else { zone })
+                }
+                None => (midp, zone),
+            };
+            Plan { ietf, key_b64, nreq, mode, batch, index, midp, target: target % nreq, forgery: forgery.clone(), zone }
+        })
     })
 }
 
@@ -629,7 +668,7 @@ fn fixed_table() -> Vec<Plan> {
     let mut out = vec![];
     for ietf in [false, true] {
         for key_b64 in [false, true] {
-            let base = |forgery: Forgery, batch: u8, index: u8, nreq: u8, target: u8| Plan { ietf, key_b64, nreq, mode: 0, batch, index, midp: if ietf { 1_700_000_000 } else { 1_700_000_000_123_456 }, target, forgery };
+            let base = |forgery: Forgery, batch: u8, index: u8, nreq: u8, target: u8| Plan { ietf, key_b64, nreq, mode: 0, batch, index, midp: if ietf { 1_700_000_000 } else { 1_700_000_000_123_456 }, target, forgery, zone: 0 };
             for c in COMPS {
                 for e in [Edit::Bit(3), Edit::Byte(40_000, 0x80), Edit::Random(1), Edit::Zero, Edit::Ones] {
                     out.push(base(Forgery::Region(c, e), 5, 3, 1, 0));
@@ -658,6 +697,7 @@ fn fixed_table() -> Vec<Plan> {
                 Forgery::Extend(Hex(vec![0; 4])),
                 Forgery::ResignedGenuine(Comp::Root, Edit::Bit(5)),
                 Forgery::ResignedGenuine(Comp::Root, Edit::Zero),
+                Forgery::OtherProtocolSignatures,
                 Forgery::RootLen(0),
                 Forgery::RootLen(4),
                 Forgery::RootLen(28),
@@ -676,6 +716,17 @@ fn fixed_table() -> Vec<Plan> {
                     let mut p = base(f, 4, 2, 1, 0);
                     p.mode = mode;
                     out.push(p);
+                }
+            }
+            // delegation windows ending/starting exactly where a zone repeats an hour, client printing local time
+            for (k, fold) in DST_FOLDS.iter().enumerate() {
+                for zone in [1 + k as u8, 3] {
+                    for f in [Forgery::WindowAbove, Forgery::WindowBelow] {
+                        let mut p = base(f, 2, 1, 1, 0);
+                        p.zone = zone;
+                        p.midp = if ietf { *fold } else { *fold * 1_000_000 };
+                        out.push(p);
+                    }
                 }
             }
             // splices and replays inside multi-request runs
@@ -713,11 +764,11 @@ pub fn run_c01(ctx: &mut Ctx) -> Vec<Violation> {
             let len = if ietf { 12 + 48 + 64 + 32 + 96 + 116 + 152 + 4 } else { 48 + 64 + 64 + 192 + 100 + 152 + 4 };
             for key_b64 in [false, true] {
                 for off in 0..len as u16 {
-                    plans.push(Plan { ietf, key_b64, nreq: 1, mode: 0, batch: 5, index: 2, midp: if ietf { 1_800_000_000 } else { 1_800_000_000_000_001 }, target: 0, forgery: Forgery::ByteAt(off, 1 << (off % 8)) });
+                    plans.push(Plan { ietf, key_b64, nreq: 1, mode: 0, batch: 5, index: 2, midp: if ietf { 1_800_000_000 } else { 1_800_000_000_000_001 }, target: 0, forgery: Forgery::ByteAt(off, 1 << (off % 8)), zone: 0 });
                 }
             }
             for n in (0..u16::MAX).step_by(97) {
-                plans.push(Plan { ietf, key_b64: false, nreq: 1, mode: 0, batch: 5, index: 2, midp: if ietf { 1_800_000_000 } else { 1_800_000_000_000_001 }, target: 0, forgery: Forgery::Truncate(n) });
+                plans.push(Plan { ietf, key_b64: false, nreq: 1, mode: 0, batch: 5, index: 2, midp: if ietf { 1_800_000_000 } else { 1_800_000_000_000_001 }, target: 0, forgery: Forgery::Truncate(n), zone: 0 });
             }
         }
         let v = run_enum(ctx, "every-offset", plans.len() as u64, |i| plans[i as usize].clone(), |ctx, p| check_forgery(ctx, p));
@@ -759,10 +810,14 @@ pub struct HonestPlan {
     /// arrive together: same SREP and signature for all of them); false = one batch per request
     #[serde(default)]
     pub same_batch: bool,
+    /// reference peer only: every request of the run is answered by a DIFFERENT online key, each certified by the one
+    /// long-term key (what a multi-worker server does)
+    #[serde(default)]
+    pub rotate_online: bool,
 }
 
 /// POSIX TZ strings (no tzdata needed) and two named zones; the printed instant must not depend on the zone
-const LOCAL_ZONES: [&str; 5] = ["XXX3", "YYY-5:30", "ZZZ-13", "America/St_Johns", "UTC"];
+const LOCAL_ZONES: [&str; 7] = ["XXX3", "YYY-5:30", "ZZZ-13", "America/St_Johns", "UTC", "EST5EDT,M3.2.0,M11.1.0", "CET-1CEST,M3.5.0,M10.5.0/3"];
 
 fn check_honest(ctx: &mut Ctx, p: &HonestPlan) -> Res {
     ctx.eval();
@@ -835,7 +890,15 @@ fn check_honest(ctx: &mut Ctx, p: &HonestPlan) -> Res {
         }
         for r in reqs {
             let d = match lab.as_mut() {
-                None => honest_parts(&ref_resp, pr, r, batch as u8, index as u8, p.midp).assemble(),
+                None => {
+                    if p.rotate_online {
+                        let mut seed = ONLINE_SEED;
+                        seed[0] ^= out.len() as u8 + 1;
+                        honest_parts(&Responder::new(&LT_SEED, &seed), pr, r, batch as u8, index as u8, p.midp).assemble()
+                    } else {
+                        honest_parts(&ref_resp, pr, r, batch as u8, index as u8, p.midp).assemble()
+                    }
+                }
                 Some(lab) => {
                     // relay: the client's request at position `index` of a real batch of `batch` requests
                     let mut sends = vec![];
@@ -967,8 +1030,8 @@ fn check_honest(ctx: &mut Ctx, p: &HonestPlan) -> Res {
 }
 
 fn honest_strategy() -> impl Strategy<Value = HonestPlan> {
-    (any::<bool>(), prop_oneof![3 => 0u8..3, 1 => 3u8..5], prop_oneof![6 => Just(1u8), 2 => 2u8..=4, 1 => 5u8..=16, 1 => 17u8..=64], 0u8..4, batch_strategy(), prop::bool::weighted(0.4), prop_oneof![2 => Just(0u8), 1 => 1u8..=5]).prop_flat_map(|(ietf, key, nreq, mode, (batch, index), real_server, zone)| {
-        (midp_strategy(ietf), any::<bool>()).prop_map(move |(midp, same_batch)| HonestPlan { ietf, key, zone, nreq, mode, batch, index, midp, real_server, same_batch })
+    (any::<bool>(), prop_oneof![3 => 0u8..3, 1 => 3u8..5], prop_oneof![6 => Just(1u8), 2 => 2u8..=4, 1 => 5u8..=16, 1 => 17u8..=64], 0u8..4, batch_strategy(), prop::bool::weighted(0.4), prop_oneof![2 => Just(0u8), 1 => 1u8..=7]).prop_flat_map(|(ietf, key, nreq, mode, (batch, index), real_server, zone)| {
+        (midp_strategy(ietf), any::<bool>(), any::<bool>()).prop_map(move |(midp, same_batch, rotate)| HonestPlan { ietf, key, zone, nreq, mode, batch, index, midp, real_server, same_batch: same_batch && !rotate, rotate_online: rotate && !real_server })
     })
 }
 
@@ -993,7 +1056,7 @@ pub fn run_c03(ctx: &mut Ctx) -> Vec<Violation> {
                         if t == Tier::Thorough && key == 2 && b > 8 {
                             continue;
                         }
-                        grid.push(HonestPlan { ietf, key, zone: 0, nreq: 1, mode: (b + i) % 4, batch: b, index: i, midp: if ietf { 1_750_000_000 } else { 1_750_000_000_999_999 }, real_server, same_batch: false });
+                        grid.push(HonestPlan { ietf, key, zone: 0, nreq: 1, mode: (b + i) % 4, batch: b, index: i, midp: if ietf { 1_750_000_000 } else { 1_750_000_000_999_999 }, real_server, same_batch: false, rotate_online: false });
                     }
                 }
             }
@@ -1005,19 +1068,31 @@ pub fn run_c03(ctx: &mut Ctx) -> Vec<Violation> {
         for key in 0..3u8 {
             for real_server in [false, true] {
                 for (nreq, batch, index) in [(2u8, 2u8, 0u8), (3, 8, 2), (5, 5, 0), (9, 16, 4), (16, 64, 40)] {
-                    grid.push(HonestPlan { ietf, key, zone: 0, nreq, mode: nreq % 3, batch, index, midp: if ietf { 1_760_000_000 } else { 1_760_000_000_000_001 }, real_server, same_batch: true });
+                    grid.push(HonestPlan { ietf, key, zone: 0, nreq, mode: nreq % 3, batch, index, midp: if ietf { 1_760_000_000 } else { 1_760_000_000_000_001 }, real_server, same_batch: true, rotate_online: false });
                 }
             }
+        }
+    }
+    // every reply of a run signed by a different (certified) online key
+    for ietf in [false, true] {
+        for key in 0..3u8 {
+            grid.push(HonestPlan { ietf, key, zone: 0, nreq: 4, mode: key, batch: 3, index: 1, midp: if ietf { 1_765_000_000 } else { 1_765_000_000_000_000 }, real_server: false, same_batch: false, rotate_online: true });
         }
     }
     // key spellings and local-time output
     for ietf in [false, true] {
         for key in [3u8, 4] {
-            grid.push(HonestPlan { ietf, key, zone: 0, nreq: 1, mode: 1, batch: 3, index: 1, midp: if ietf { 1_770_000_000 } else { 1_770_000_000_500_000 }, real_server: false, same_batch: false });
+            grid.push(HonestPlan { ietf, key, zone: 0, nreq: 1, mode: 1, batch: 3, index: 1, midp: if ietf { 1_770_000_000 } else { 1_770_000_000_500_000 }, real_server: false, same_batch: false, rotate_online: false });
+        }
+        // honest replies whose midpoint falls in an hour the local zone repeats or skips (clocks back / forward)
+        for (zone, instants) in [(6u8, [1_762_063_200u64, 1_762_063_199, 1_741_503_600]), (7u8, [1_761_440_400, 1_761_440_399, 1_743_296_400])] {
+            for (k, s) in instants.iter().enumerate() {
+                grid.push(HonestPlan { ietf, key: 1, zone, nreq: 1, mode: k as u8 % 3, batch: 2, index: 0, midp: if ietf { *s } else { *s * 1_000_000 + 1 }, real_server: false, same_batch: false, rotate_online: false });
+            }
         }
         for zone in 1..=5u8 {
             for midp_s in [1_770_000_000u64, 1_751_759_999, 1_762_061_400, 86_399, 4_102_444_799] {
-                grid.push(HonestPlan { ietf, key: 1, zone, nreq: 1, mode: zone % 3, batch: 2, index: 1, midp: if ietf { midp_s } else { midp_s * 1_000_000 + 7 }, real_server: false, same_batch: false });
+                grid.push(HonestPlan { ietf, key: 1, zone, nreq: 1, mode: zone % 3, batch: 2, index: 1, midp: if ietf { midp_s } else { midp_s * 1_000_000 + 7 }, real_server: false, same_batch: false, rotate_online: false });
             }
         }
     }
